@@ -19,7 +19,43 @@ class C04(FCheck):
             "errno; thorough: every site x every errno, plus sampled pairs); non-trivial = the fault actually fired; distinct by signature")
     assumptions = ["one fault per run (pairs in thorough)", "errno sets per call class as in DESIGN 2.4", "close() is never failed"]
 
+    def items(self, tier, seed):
+        for it in super().items(tier, seed):
+            if it["case"].get("race_shape"):
+                # a stepped baseline schedule: who finalises a file (a block job, the dispatcher, or the fallback in Drop) is decided by
+                # a user-space race; the fault enumeration over that schedule then fails the finalisation calls wherever they ended up
+                rr = gen.rng_for(seed, self.prop, it["case_id"], "race-plan")
+                sp = gen.sched_plan(rr, ustep=1.0)
+                sp["ustep_budget"] = 300
+                it["plan"] = {"seed": rr.randrange(1 << 48), "sched": sp}
+            yield it
+
+    def candidates(self, events, nsites):
+        c = super().candidates(events, nsites)
+        if getattr(self, "_only_finalisation", False):
+            c = [x for x in c if x["_call"] in ("fchmod", "utimensat", "fsync", "fdatasync", "fchown")]
+        return c
+
+    def run_item(self, sim, item):
+        self._only_finalisation = bool(item["case"].get("race_shape"))
+        try:
+            return super().run_item(sim, item)
+        finally:
+            self._only_finalisation = False
+
     def gen_case(self, r, idx, tier):
+        if idx % 10 == 7:
+            # race shape (cf. C06): many files of two or three blocks under parblock, so that the last two holders of a handle finish
+            # close together; only the finalisation calls are failed here
+            bs = r.choice([4096, 8192])
+            ops = [gen.d_op("src")]
+            for i in range(r.randrange(8, 14)):
+                ops.append(gen.f_op("src/t%02d" % i, bs * r.choice([2, 2, 3]) + r.choice([0, 1]), pat=r.randrange(1, 1 << 30), mode=r.choice([0o640, 0o600, 0o755])))
+            flags = {"r": True}
+            if r.random() < 0.5:
+                flags["fsync"] = True
+            inv = gen.mk_inv(["src"], "dst", driver="parblock", workers=r.choice([2, 3, 4, 8]), block_size=bs, **flags)
+            return {"setup": ops, "steps": [{"inv": inv}], "max_events": 400000, "race_shape": True}
         driver = r.choice(["parfile", "parblock"])
         bs = r.choice([4096, 65536, 1 << 20])
         ops = gen.small_tree(r, "src", nfiles=r.randrange(1, 5), links=True, specials=r.random() < 0.4,
